@@ -342,6 +342,11 @@ class Case:
         args = "[" + "; ".join(a.coq() for a in self.args) + "]"
         run = "run_bi_checked" if self.checked else "run_bi"
         call = "(%s B_%s %s)" % (run, self.name, args)
+        if self.name == "sort" and len(self.args) == 1 and getattr(self.args[0], "k", "") == "list":
+            return "(mark (mutually_comparable [%s]) (show_out %s))" % ("; ".join(x.coq() for x in self.args[0].p), call)
+        if self.name == "sort_by" and len(self.args) == 2 and getattr(self.args[0], "k", "") == "list" and not self.checked:
+            return "(mark (keys_comparable %s [%s]) (show_out %s))" % (
+                self.args[1].coq(), "; ".join(x.coq() for x in self.args[0].p), call)
         return "(show_out %s)" % call
 
     def text(self):
@@ -1135,12 +1140,25 @@ def main(argv):
         outcome_hist[r.split(":")[0]] = outcome_hist.get(r.split(":")[0], 0) + 1
         if m is None:
             continue
+        incomparable = m.endswith("#INCOMPARABLE")
+        if incomparable:
+            m = m[:-len("#INCOMPARABLE")]
+            if m != r and m.startswith("OK:") and r.startswith("OK:") and "C14-sort-panic" in known and \
+                    multiset_of_list_text(r[3:]) == sorted(x.show() for x in cs.args[0].p):
+                anyperm += 1          # unspecified order (std contract): another permutation than std 1.89's
+                validated += 1
+                continue
         if cs.known and cs.known in known:
             # open finding class: the positive theorems claim nothing here, but the implementation must still be
             # either the code as transcribed or the proposed repair
             skipped_known[cs.known] = skipped_known.get(cs.known, 0) + 1
             fx = fixed_model.get(id(cs))
-            if r == m:
+            if "UNMODELLED" in (m, fx) and cs.name in ("sort", "sort_by") and getattr(cs.args[0], "k", "") == "list" and \
+                    r.startswith("OK:") and multiset_of_list_text(r[3:]) == sorted(x.show() for x in cs.args[0].p):
+                anyperm += 1          # also in std's unspecified class: any permutation
+            elif "UNMODELLED" in (m, fx) and cs.name in ("sort", "sort_by") and r == "PANIC" and "C14-sort-panic" in known:
+                skipped_known["C14-sort-panic"] = skipped_known.get("C14-sort-panic", 0) + 1
+            elif r == m:
                 known_current += 1
             elif fx is not None and r == fx:
                 known_fixed += 1
